@@ -106,11 +106,20 @@ def w_interstitial(arg):
             Ds = D_spec(d, pre, be, preT, beT)
             acc.check(np.abs(D - Ds).max() <= 1e-9 * sc, 'diffusivity-equals-exact-long-time-diffusivity', '%s: |D-Dspec|/|D| = %.2e (NV=%d, solver %s)' % (tag, np.abs(D - Ds).max() / sc, d.NV, 'solve' if d.omega_invertible else 'pinv'), sig=(t, 'spec'))
             if gf is not None:
+                gf.D = None
                 try:
                     gf.SetRates(pre, be, preT, beT)
                     acc.check(np.abs(gf.D - D).max() <= 1e-8 * sc, 'green-function-calculator-reports-the-same-diffusivity', '%s: %.2e' % (tag, np.abs(gf.D - D).max() / sc), sig=(t, 'gf'))
                 except Exception as ex:
-                    acc.check(False, 'green-function-calculator-reports-the-same-diffusivity', '%s: %s' % (type(ex).__name__, str(ex)[:200]))
+                    # an exception inside the library on a valid input is a violation; it is identified by its message and by
+                    # the anisotropy class of the diffusivity so that the recorded finding (refusal above ~1e6) hides nothing else
+                    ev = np.linalg.eigvalsh(0.5 * (D + D.T))
+                    aniso = ev[-1] / ev[0] if ev[0] > 0 else np.inf
+                    acc.check(False, 'green-function-calculator-reports-the-same-diffusivity', '%s: %s: %s (anisotropy of D %.1e)' % (tag, type(ex).__name__, str(ex)[:200], aniso),
+                              signature='gf-raises:%s: %s|aniso%s3e5' % (type(ex).__name__, str(ex)[:80], '>=' if aniso >= 3e5 else '<'))
+                    if gf.D is not None:
+                        # the diffusivity is computed before the stage that refused: it must still be the right one
+                        acc.check(np.abs(gf.D - D).max() <= 1e-8 * sc, 'green-function-calculator-diffusivity-computed-before-refusal-agrees', '%s: %.2e' % (tag, np.abs(gf.D - D).max() / sc), sig=(t, 'gfD'))
             # P-lemma companions, numerically: detailed balance and null vector
             rho = d.siteprob(pre, be); rl = d.ratelist(pre, be, preT, beT); sl = d.symmratelist(pre, be, preT, beT)
             ok = True
